@@ -18,6 +18,7 @@ STANDARD = [
     ("$[?length(@.a) == 1]", "objarr"), ("$[?count(@.*) > 1]", "objarr"), ("$[?match(@.a, 'a.*')]", "objarr"),
     ("$[?value(@..a) == 1]", "nest2"), ("$[?!@.b && @.a != $[0].a]", "objarr"), ("$.a[?@ == $.b.a]", "nest1"),
     ("$[?@[?@ == 1]]", "nest3"), ("$[*][?@]", "nest3"), ("$.b[?@ == 1]", "nest1"),
+    ("$[::0]", "arr"), ("$..[1:3:0]", "nest3"), ("$.a[0:2:0, 0]", "nest1"), ("$[?@[::0]]", "nest3"), ("$[0::-1]", "arr"),
 ]
 EXTENDED = [
     ("$.~", "obj2"), ("$..~", "nest1"), ("$[~]", "numkeys"), ("$.b.~", "nest1"), ("^[?@.a]", "obj2"), ("^[?@[0].a == 1]", "objarr"),
@@ -72,7 +73,8 @@ def plan(tier: str, seed: int) -> Plan:
                                    bounds="documents are Mapping/Sequence classes with __getitem_async__ "
                                           + ("that suspends once per call" if g == "suspend" else "completing immediately")))
     # schedules
-    for q, s in [("$..*", "nest1"), ("$[?@.a == 1]", "objarr"), ("$.a.* | $.b.*", "nest1"), ("$.*", "obj2")]:
+    for q, s in [("$..*", "nest1"), ("$[?@.a == $[0].a]", "objarr"), ("$.a.* | $.b.*", "nest1"), ("$[?@.a == _.k]", "objarr"),
+                 ("$.a[?@ == $.b.a]", "nest1"), ("$[?count($[?@.a == 1]) > 0 && @.a]", "objarr")]:
         for k in ([2, 4] if not thorough else [2, 4, 6]):
             conds.append(Condition(f"sched{k}:{s}:{q}", "schedule", H, "schedule",
                                    {"qtext": q, "spine": s, "leaf": "int", "sched": k, "maxn": 2}, T * 2, required=False,
